@@ -100,6 +100,10 @@ def tmpLike (N : Nat) (dst : DCt) : DCt :=
 def bufOfK (env : Env) (N : Nat) (like : DCt) (k : Nat) : DCt :=
   ⟨{ like.g with k := k, cols := zeroC N like.g.cols.length (divCeil k env.base2k) }, ⟨0, 0⟩⟩
 
+/-- `ckks_mul_{add,sub}_*_into`: the product into `take_mul_tmp(dst)`, then `ckks_{add,sub}_assign(dst, tmp)` -/
+def dMulAddWith (env : Env) (N : Nat) (sub : Bool) (dst : DCt) (prod : DCt → Outcome DCt) : Outcome DCt :=
+  bind (prod (tmpLike N dst)) fun tmp => dAddAssign env N sub dst tmp
+
 /-- `accumulate_unnormalized`: every further product goes into a temporary and is added without normalisation -/
 def dAccumulate (env : Env) (N : Nat) (first : Outcome DCt) (terms : List (DCt → Outcome DCt)) : Outcome DCt :=
   let r := terms.foldl (fun (acc : Outcome DCt) t =>
@@ -150,6 +154,32 @@ def dDotCt (env : Env) (N : Nat) (mk : MulKey) (dst : DCt) (as bs : List DCt) : 
             (effCols env.base2k bT ab.2.g) bT t), true)) (some (zeroC N (tensorCols a0.g) ts), false) |>.1
         ofOpt (tens.bind (relinData mk N env.base2k dst.g.size)) fun cols => .ok ⟨{ dst.g with cols := cols }, m⟩
     | _, _ => .panic "model"
+
+/-- `mul_many_rec`: one input is an aligned copy, two a product, more a balanced tree whose halves go to scratch ciphertexts of
+`min effective_k − ⌈log₂ len⌉·log_delta` bits (`take_glwe`); `fuel` ≥ number of inputs -/
+def dMulManyRec (env : Env) (N : Nat) (mk : MulKey) : Nat → DCt → List DCt → Outcome DCt
+  | 0, _, _ => .panic "model"
+  | fuel + 1, dst, ins =>
+    match ins with
+    | [] => .panic "model"
+    | [x] => dMulPow2Into env N dst x 0
+    | [x, y] => dMulInto env N mk dst x y
+    | a :: b :: c :: rest =>
+      let all := a :: b :: c :: rest
+      let mid := all.length / 2
+      let left := all.take mid
+      let right := all.drop mid
+      let δ := a.md.logDelta
+      let lk := minEff (left.map DCt.ct) - ceilLog2 left.length * δ
+      let rk := minEff (right.map DCt.ct) - ceilLog2 right.length * δ
+      bind (dMulManyRec env N mk fuel (bufOfK env N dst lk) left) fun l =>
+      bind (dMulManyRec env N mk fuel (bufOfK env N dst rk) right) fun r =>
+      dMulInto env N mk dst l r
+
+/-- `ckks_mul_many(dst, inputs, tsk)` -/
+def dMulMany (env : Env) (N : Nat) (mk : MulKey) (dst : DCt) (ins : List DCt) : Outcome DCt :=
+  withMeta (mulMany env dst.ct (ins.map DCt.ct)) fun m =>
+    bind (dMulManyRec env N mk (ins.length + 1) dst ins) fun c => .ok ⟨c.g, m⟩
 
 /-- `ckks_dot_product_pt_vec_znx(dst, a, pt)` -/
 def dDotPt (env : Env) (N : Nat) (big : Bool) (dst : DCt) (as : List DCt) (pt : Pt) (pgs : List Col) : Outcome DCt :=
@@ -214,7 +244,10 @@ inductive XOp where
   | squareAssign (d : Nat)
   | mulPt (d a : Nat) (pt : Pt) (pg : Col)
   | mulPtAssign (d : Nat) (pt : Pt) (pg : Col)
+  | mulAdd (sub : Bool) (d a b : Nat)
+  | mulAddPt (sub : Bool) (d a : Nat) (pt : Pt) (pg : Col)
   | addMany (d : Nat) (as : List Nat)
+  | mulMany (d : Nat) (as : List Nat)
   | dotCt (d : Nat) (as bs : List Nat)
   | dotPt (d : Nat) (as : List Nat) (pt : Pt) (pgs : List Col)
   | rot (d a : Nat) (k : Int)
@@ -246,7 +279,10 @@ def xstep (env : Env) (N : Nat) (mk : MulKey) (ak : AutKeys) (pool : DPool) : XO
   | .squareAssign d => dop1 pool d (fun cd => dSquareInto env N mk cd cd)
   | .mulPt d a pt pg => dop2 pool d a (fun cd ca => dMulPtInto env N mk.big cd ca pt pg)
   | .mulPtAssign d pt pg => dop1 pool d (fun cd => dMulPtInto env N mk.big cd cd pt pg)
+  | .mulAdd sub d a b => dop3 pool d a b (fun cd ca cb => dMulAddWith env N sub cd (fun t => dMulInto env N mk t ca cb))
+  | .mulAddPt sub d a pt pg => dop2 pool d a (fun cd ca => dMulAddWith env N sub cd (fun t => dMulPtInto env N mk.big t ca pt pg))
   | .addMany d as => dopN pool d as (dAddMany env N)
+  | .mulMany d as => dopN pool d as (dMulMany env N mk)
   | .dotCt d as bs =>
     match pool[d]?, dgetAll pool d as, dgetAll pool d bs with
     | some cd, some xs, some ys => dput pool d (dDotCt env N mk cd xs ys)
